@@ -683,6 +683,12 @@ fn exec_any(w: &World, st: &[String]) -> String {
         o
     } else {
         match st[0].as_str() {
+            "nvord" => guarded(|| match FLAVOUR {
+                "digraph" => crate::nvord_digraph(),
+                "sync_digraph" => crate::nvord_sync_digraph(),
+                "ungraph" => crate::nvord_ungraph(),
+                _ => crate::nvord_sync_ungraph(),
+            }),
             "klossy" => guarded(|| match FLAVOUR {
                 "digraph" => crate::lossy_digraph(),
                 "sync_digraph" => crate::lossy_sync_digraph(),
